@@ -1641,6 +1641,22 @@ impl<W: Clone + Seek + Write + FileExt> Sst<W> {
         is_tombstone: &mut bool,
     ) -> Result<Option<Vec<u8>>, SError> {
         *is_tombstone = false;
+        match self.load_versioned(key, timestamp)? {
+            Some((_, value)) => {
+                *is_tombstone = value.is_none();
+                Ok(value)
+            }
+            None => Ok(None),
+        }
+    }
+
+    /// Load the newest version of `key` at or below `timestamp`, together with that version's
+    /// timestamp.  The value is None when the version is a tombstone.
+    pub fn load_versioned(
+        &self,
+        key: &[u8],
+        timestamp: u64,
+    ) -> Result<Option<(u64, Option<Vec<u8>>)>, SError> {
         if !self.filter.check(key) {
             SST_BLOOM_NEGATIVE.click();
             return Ok(None);
@@ -1657,8 +1673,10 @@ impl<W: Clone + Seek + Write + FileExt> Sst<W> {
         }
         if let Some(kvr) = cursor.key_value() {
             if kvr.key == key {
-                *is_tombstone = kvr.value.is_none();
-                Ok(kvr.value.as_ref().map(|v| v.to_vec()))
+                Ok(Some((
+                    kvr.timestamp,
+                    kvr.value.as_ref().map(|v| v.to_vec()),
+                )))
             } else {
                 SST_BLOOM_FALSE_POSITIVE.click();
                 Ok(None)
